@@ -33,7 +33,7 @@ Based == { V1(S("2#101#"), IntN(2, S("101")), All, TRUE), V1(S("16#fF#"), IntN(1
            V1(S("8#777#"), IntN(8, S("777")), All, TRUE),
            V1(S("2#-101#"), IntN(2, S("-101")), OdlFam \cup {"OMNI"}, TRUE), V1(S("16#+fF#"), IntN(16, S("+fF")), OdlFam \cup {"OMNI"}, TRUE),
            V1(S("3#12#"), IntN(3, S("12")), OdlFam \cup {"OMNI"}, TRUE), V1(S("12#bA#"), IntN(12, S("bA")), OdlFam \cup {"OMNI"}, TRUE) }
-Reals == { V1(S(x), N("real", S(x), <<>>), All, TRUE) : x \in {"1.", ".5", "1.5", "-1.5e+5", "1E5", "-.5e-5", "+0.0", "1e-7"} }
+Reals == { V1(S(x), N("real", S(x), <<>>), All, TRUE) : x \in {"1.", ".5", "1.5", "-1.5e+5", "1E5", "-.5e-5", "+0.0", "1e-7", "1.5E+3", "2E-2", "+.5E+05", "0e0"} }
 Keywords == { V1(S("NULL"), N("null", <<>>, <<>>), All, FALSE), V1(S("null"), N("null", <<>>, <<>>), All, FALSE),
               V1(S("True"), N("bool", S("true"), <<>>), All, FALSE), V1(S("FALSE"), N("bool", S("false"), <<>>), All, FALSE) }
 Quoted == { V1(S("\"a b\""), Str(S("a b")), All, FALSE), V1(S("'a b'"), Str(S("a b")), All, FALSE),
